@@ -174,8 +174,10 @@ except ImportError:
     PATHS = {}
 # remaining path classes of the branching functions (obligations in lean/Cgm/Trace/<pid>More.lean) and the operations
 # that had a model function and a driver op but no kernel (lean/Cgm/Trace/<pid>Rest.lean)
-MORE, REST = {}, {}
-for _mod, _name, _dst in (("tracetab_more", "MORE", MORE), ("tracetab_more2", "MORE", MORE), ("tracetab_rest", "REST", REST)):
+# the operations added for C18 / C16 (tracetab_ops.py; lean/Cgm/Trace/<pid>Ops*.lean)
+MORE, REST, OPS = {}, {}, {}
+for _mod, _name, _dst in (("tracetab_more", "MORE", MORE), ("tracetab_more2", "MORE", MORE), ("tracetab_rest", "REST", REST),
+                          ("tracetab_ops", "OPS", OPS)):
     try:
         _m = __import__("cgv." + _mod, fromlist=[_name])
         for _k, _v in getattr(_m, _name).items():
@@ -183,7 +185,8 @@ for _mod, _name, _dst in (("tracetab_more", "MORE", MORE), ("tracetab_more2", "M
     except ImportError:
         pass
 TRACE = {pid: list(MANUAL.get(pid, [])) + list(AUTO.get(pid, [])) + list(PATHS.get(pid, [])) + list(MORE.get(pid, [])) + list(REST.get(pid, []))
-         for pid in sorted(set(MANUAL) | set(AUTO) | set(PATHS) | set(MORE) | set(REST))}
+         + list(OPS.get(pid, []))
+         for pid in sorted(set(MANUAL) | set(AUTO) | set(PATHS) | set(MORE) | set(REST) | set(OPS))}
 _names = [k for l in TRACE.values() for k, _ in l]
 assert len(_names) == len(set(_names)) or all(len({k for k, _ in l}) == len(l) for l in TRACE.values()), "duplicate kernel name"
 
